@@ -32,3 +32,8 @@ VARIANTS = [
 VARIANTS += [
     v("c16-token", A, 'dask_name = f"{name}-{tokenize(xx.data, zones.data, dtype)}"', 'dask_name = f"{name}-{tokenize(xx.data, xx.nodata, zones.nodata, num_zones, dtype)}"', names="R-TOKEN", note="seeded C16a"),
 ]
+
+VARIANTS += [
+    v("c16-nan-subst-floatonly", A, "        xx = xx.where(xx.notnull(), xx.nodata)\n", "        if np.issubdtype(xx.dtype, float):\n            xx = xx.where(xx.notnull(), xx.nodata)\n", names="mean",
+      note="np.issubdtype(float32, float) is False: float32 NaN pixels reach the kernel"),
+]
